@@ -487,6 +487,164 @@ fn walk(g: &Graph, n: &Node, path: &mut Vec<Slot>, depth: usize, cache_ok: bool,
     }
 }
 
+
+// ---------------------------------------------------------------------------
+// reference interpreter for graphs without PaintGlyph: the exact callback stream and result
+// ---------------------------------------------------------------------------
+
+#[derive(Clone, Copy, Debug, PartialEq, Eq)]
+pub enum SimEv {
+    PushTransform,
+    PopTransform,
+    PushClipBox,
+    PopClip,
+    PushLayer,
+    PopLayer,
+    Fill,
+    Cached(u32),
+}
+
+#[derive(Clone, Copy, Debug, PartialEq, Eq)]
+pub enum SimErr {
+    Cycle,
+    Depth,
+    Invalid,
+}
+
+pub struct Sim<'a> {
+    g: &'a Graph,
+    cache_ok: bool,
+    /// the decycler's path. A paint is identified by its offset in the compiled table; write-fonts
+    /// shares identical sub-tables, so two slots with structurally equal paint trees have the same id
+    /// (checked by `dedup_gate`).
+    path: Vec<&'a Node>,
+    pub events: Vec<SimEv>,
+}
+
+impl<'a> Sim<'a> {
+    /// `Decycler::enter` as documented in skrifa/src/decycler.rs (tortoise and hare over the DFS path,
+    /// depth limit 64): a node is refused when it equals the path entry at half the current depth.
+    fn enter(&mut self, id: &'a Node) -> Result<(), SimErr> {
+        let d = self.path.len();
+        if d >= 64 {
+            return Err(SimErr::Depth);
+        }
+        if d == 0 || self.path[d / 2] != id {
+            self.path.push(id);
+            Ok(())
+        } else {
+            Err(SimErr::Cycle)
+        }
+    }
+
+    fn node(&mut self, n: &'a Node, depth: usize) -> Result<(), SimErr> {
+        if depth >= 64 {
+            return Err(SimErr::Depth);
+        }
+        match n {
+            Node::Fill(_) => {
+                self.events.push(SimEv::Fill);
+                Ok(())
+            }
+            Node::Grad(_) => unreachable!("filtered by supported()"),
+            Node::ColrGlyph(gid) => {
+                let idx = (*gid as usize).wrapping_sub(1);
+                if *gid == 0 || idx >= self.g.bases.len() {
+                    return Err(SimErr::Invalid);
+                }
+                let g = self.g;
+                self.enter(&g.bases[idx])?;
+                self.events.push(SimEv::Cached(*gid as u32));
+                let r = if self.cache_ok {
+                    Ok(())
+                } else {
+                    if g.clip {
+                        self.events.push(SimEv::PushClipBox);
+                    }
+                    let r = self.node(&g.bases[idx], depth + 1);
+                    if g.clip {
+                        self.events.push(SimEv::PopClip);
+                    }
+                    r
+                };
+                self.path.pop();
+                r
+            }
+            Node::ColrLayers(first, count) => {
+                let g = self.g;
+                for i in *first as usize..*first as usize + *count as usize {
+                    if i >= g.layers.len() {
+                        return Err(SimErr::Invalid);
+                    }
+                    self.enter(&g.layers[i])?;
+                    let r = self.node(&g.layers[i], depth + 1);
+                    self.path.pop();
+                    r?;
+                }
+                Ok(())
+            }
+            Node::Unary(_, c) | Node::Xf(_, _, c) => {
+                self.events.push(SimEv::PushTransform);
+                let r = self.node(c, depth + 1);
+                self.events.push(SimEv::PopTransform);
+                r
+            }
+            Node::Composite(s, b) => {
+                self.events.push(SimEv::PushLayer);
+                self.node(b, depth + 1)?;
+                self.events.push(SimEv::PushLayer);
+                let r = self.node(s, depth + 1);
+                self.events.push(SimEv::PopLayer);
+                self.events.push(SimEv::PopLayer);
+                r
+            }
+        }
+    }
+}
+
+/// true if the interpreter models every node of the tree: no PaintGlyph (fill trial), only fills that
+/// always emit exactly one `fill`
+fn supported(n: &Node, var_store: bool) -> bool {
+    match n {
+        Node::Fill(f) => !matches!(f, Fill::LinearDegenerate | Fill::SweepEmpty) && !(var_store && format!("{f:?}").starts_with("Var")),
+        Node::Grad(_) => false,
+        Node::ColrGlyph(_) | Node::ColrLayers(..) => true,
+        Node::Unary(u, c) | Node::Xf(u, _, c) => *u != Un::Glyph && supported(c, var_store),
+        Node::Composite(a, b) => supported(a, var_store) && supported(b, var_store),
+    }
+}
+
+/// Expected (result, callback stream) of painting glyph 1 with format v1, or None when the graph is
+/// outside the interpreter's model.
+pub fn simulate(g: &Graph, cache_ok: bool) -> Option<(Result<(), SimErr>, Vec<SimEv>)> {
+    if g.v0.is_some() || g.bases.is_empty() || !g.bases.iter().chain(g.layers.iter()).all(|n| supported(n, g.var_store)) {
+        return None;
+    }
+    let mut s = Sim { g, cache_ok, path: vec![], events: vec![] };
+    if g.clip {
+        s.events.push(SimEv::PushClipBox);
+    }
+    let mut r = s.enter(&g.bases[0]);
+    if r.is_ok() {
+        r = s.node(&g.bases[0], 0);
+    }
+    if r.is_ok() && g.clip {
+        s.events.push(SimEv::PopClip);
+    }
+    Some((r, s.events))
+}
+
+/// the root's own tree reaches PaintColrGlyph(root glyph) without passing through another
+/// PaintColrGlyph / PaintColrLayers: the only id on the decycler path is the root itself
+pub fn direct_self_reference(n: &Node) -> bool {
+    match n {
+        Node::ColrGlyph(g) => *g == 1,
+        Node::Unary(_, c) | Node::Xf(_, _, c) => direct_self_reference(c),
+        Node::Composite(a, b) => direct_self_reference(a) || direct_self_reference(b),
+        _ => false,
+    }
+}
+
 // ---------------------------------------------------------------------------
 // enumeration of trees
 // ---------------------------------------------------------------------------
